@@ -144,6 +144,14 @@ func probesFor(src string, h *host, tr *truth, x held, others []held, rng *rand.
 	}
 	add("none", "", "", x.e.clone(), x.spent)
 	add("flip", "", "", x.e.clone(), !x.spent)
+	// the element of another kind with the same pre-image bytes
+	for _, r := range reinterpretations(x.e) {
+		pair := x.e.k.String() + "-as-" + r.k.String()
+		add("reinterpret", pair, "", r, false)
+		if x.spent {
+			add("reinterpret", pair, "", r.clone(), true)
+		}
+	}
 	if x.spent {
 		return ps // a spent element: as it is (member as spent), and presented as unspent through every door
 	}
